@@ -45,7 +45,9 @@ def _instantiate(f, dom):
 def candidates(ex, ob, bound=3, tries=3):
     dom = list(range(-1, bound + 2))
     out = []
-    for b in (2, bound):
+    for b in (2, bound, 15, 47, None):
+        if out:
+            break
         s = z3.Solver()
         s.set("timeout", 15000)
         for a in ob.pc:
@@ -57,7 +59,8 @@ def candidates(ex, ob, bound=3, tries=3):
             for sym in _consts(a):
                 if sym.decl().name().startswith("len(") and sym.get_id() not in seen:
                     seen.add(sym.get_id())
-                    s.add(sym <= b + 1)
+                    if b is not None:
+                        s.add(sym <= b + 1)
         r = s.check()
         if r == z3.sat:
             base_model = s.model()
